@@ -1409,6 +1409,7 @@ class Prop:
             fail = f"dump: {label}: the reader failed: {box['rerr']}"
         elif not rfin or not wfin or stream.timed_out or "werr" in box:
             fail = f"dump: {label}: threads did not complete ({box.get('werr', 'timeout')})"
+            _STATE["deadlock_seen"] = True     # one long wait establishes it: later waits of this run are short (see T)
         elif not unusable and seen != [0]:
             fail = (f"dump: {label}(mapper={mp}, data={data_kind}): the written document is not a state between two critical "
                     f"sections: the reader had taken its snapshot before the writer entered `with tree:`, but the document "
